@@ -19,8 +19,9 @@ import time as _real_time
 import types
 from asyncio import events
 
-if '/repo/src' not in sys.path:
-    sys.path.insert(0, '/repo/src')
+REPO_SRC = os.environ.get('VERIF_REPO_SRC', '/repo/src')
+if REPO_SRC not in sys.path:
+    sys.path.insert(0, REPO_SRC)
 
 from vt import core  # noqa: E402
 from vt.ref import wire  # noqa: E402
